@@ -42,6 +42,11 @@ pub enum Variant {
     LoadResSame,
     /// a parameter of the subject rule changes: must apply to the very next entry
     Changed,
+    /// differential with no hand-written expectation for ANY changed parameter: the subject rule
+    /// is re-loaded with parameter `alt` changed before any traffic (`reverse`: the changed rule
+    /// first, the base rule re-loaded); every observation of the history must equal the run in
+    /// which the final rule was loaded from the start
+    FreshEquivalent,
 }
 
 #[derive(Serialize, Deserialize, Clone, Debug)]
@@ -50,6 +55,14 @@ pub struct Cfg {
     pub variant: Variant,
     /// the reload is inserted before step `at` of the history
     pub at: usize,
+    /// FreshEquivalent: which parameter changes (index into `alts(family)`)
+    #[serde(default)]
+    pub alt: usize,
+    /// FreshEquivalent: re-load through load_rules_of_resource instead of load_rules
+    #[serde(default)]
+    pub per_resource: bool,
+    #[serde(default)]
+    pub reverse: bool,
 }
 
 #[derive(Clone, Debug)]
@@ -149,6 +162,131 @@ fn cb_unrelated(id: &str, thr: f64) -> Arc<cb::Rule> {
     Arc::new(cb::Rule { id: id.into(), resource: U.into(), strategy: cb::BreakerStrategy::ErrorCount, retry_timeout_ms: 400, min_request_amount: 1, stat_interval_ms: 1000, threshold: thr, ..Default::default() })
 }
 
+/// names of the one-parameter changes of the family's subject rule (see `subject_alt`)
+pub fn alts(f: Family) -> Vec<&'static str> {
+    match f {
+        Family::FlowGlobal | Family::FlowPrivate => vec!["threshold", "stat_interval_ms", "control_strategy"],
+        Family::FlowThrottling => vec!["threshold", "stat_interval_ms", "control_strategy", "max_queueing_time_ms"],
+        Family::FlowWarmUp => vec!["threshold", "warm_up_period_sec", "warm_up_cold_factor", "calculate_strategy"],
+        Family::HotspotQps => vec!["threshold", "metric_type", "duration_in_sec", "burst_count", "specific_items", "params_max_capacity", "control_strategy"],
+        Family::HotspotThrottling => vec!["threshold", "metric_type", "duration_in_sec", "max_queueing_time_ms", "specific_items", "control_strategy"],
+        Family::HotspotConcurrency => vec!["threshold", "metric_type", "specific_items", "params_max_capacity"],
+        Family::BreakerErrors | Family::BreakerOpen | Family::BreakerHalfOpen => vec!["threshold", "min_request_amount", "retry_timeout_ms", "stat_interval_ms", "stat_sliding_window_bucket_count", "strategy"],
+    }
+}
+enum AnySubject {
+    Flow(Arc<flow::Rule>),
+    Hs(Arc<hotspot::Rule>),
+    Cb(Arc<cb::Rule>),
+}
+/// the family's subject rule (as `initial_load` uses it), with parameter `alt` changed if given
+fn subject_alt(f: Family, alt: Option<usize>) -> AnySubject {
+    let name = alt.map(|k| alts(f)[k]);
+    match kind(f) {
+        Kind::Flow => {
+            let mut r = (*flow_subject(f, "s", false)).clone();
+            match name {
+                None => {}
+                Some("threshold") => r.threshold *= 2.0,
+                Some("stat_interval_ms") => r.stat_interval_ms = match f {
+                    Family::FlowGlobal => 2000,
+                    Family::FlowPrivate => 300,
+                    _ => 5000,
+                },
+                Some("control_strategy") => {
+                    if r.control_strategy == flow::ControlStrategy::Throttling {
+                        r.control_strategy = flow::ControlStrategy::Reject;
+                    } else {
+                        r.control_strategy = flow::ControlStrategy::Throttling;
+                        r.max_queueing_time_ms = 600;
+                    }
+                }
+                Some("max_queueing_time_ms") => r.max_queueing_time_ms = 100,
+                Some("warm_up_period_sec") => r.warm_up_period_sec = 6,
+                Some("warm_up_cold_factor") => r.warm_up_cold_factor = 5,
+                Some("calculate_strategy") => r.calculate_strategy = flow::CalculateStrategy::Direct,
+                Some(x) => unreachable!("{}", x),
+            }
+            AnySubject::Flow(Arc::new(r))
+        }
+        Kind::Hotspot => {
+            let mut r = (*hs_subject(f, "s", false)).clone();
+            match name {
+                None => {}
+                Some("threshold") => r.threshold += 2,
+                Some("metric_type") => {
+                    r.metric_type = if r.metric_type == hotspot::MetricType::QPS { hotspot::MetricType::Concurrency } else { hotspot::MetricType::QPS };
+                    if r.duration_in_sec == 0 {
+                        r.duration_in_sec = 1;
+                    }
+                }
+                Some("duration_in_sec") => r.duration_in_sec = 2,
+                Some("burst_count") => r.burst_count = 3,
+                Some("max_queueing_time_ms") => r.max_queueing_time_ms = 100,
+                Some("specific_items") => {
+                    r.specific_items.insert("A".into(), 1);
+                }
+                Some("params_max_capacity") => r.params_max_capacity = 3,
+                Some("control_strategy") => {
+                    if r.control_strategy == hotspot::ControlStrategy::Throttling {
+                        r.control_strategy = hotspot::ControlStrategy::Reject;
+                    } else {
+                        r.control_strategy = hotspot::ControlStrategy::Throttling;
+                        r.max_queueing_time_ms = 600;
+                    }
+                }
+                Some(x) => unreachable!("{}", x),
+            }
+            AnySubject::Hs(Arc::new(r))
+        }
+        Kind::Breaker => {
+            let mut r = (*cb_initial(f)[0]).clone();
+            match name {
+                None => {}
+                Some("threshold") => r.threshold += 1.0,
+                Some("min_request_amount") => r.min_request_amount = 3,
+                Some("retry_timeout_ms") => r.retry_timeout_ms = 100,
+                Some("stat_interval_ms") => r.stat_interval_ms = 2000,
+                Some("stat_sliding_window_bucket_count") => r.stat_sliding_window_bucket_count = 1,
+                Some("strategy") => {
+                    r.strategy = cb::BreakerStrategy::ErrorRatio;
+                    r.threshold = 0.5;
+                }
+                Some(x) => unreachable!("{}", x),
+            }
+            AnySubject::Cb(Arc::new(r))
+        }
+    }
+}
+/// load [subject, lax, unrelated] with the given subject, for all resources or for R only
+fn load_with(s: &AnySubject, per_resource: bool) -> Result<(), String> {
+    let r = R.to_string();
+    match s {
+        AnySubject::Flow(x) => {
+            if per_resource {
+                flow::load_rules_of_resource(&r, vec![x.clone(), flow_lax("lax")]).map_err(|e| e.to_string())?;
+            } else {
+                flow::load_rules(vec![x.clone(), flow_lax("lax"), flow_unrelated("u", 3.0)]);
+            }
+        }
+        AnySubject::Hs(x) => {
+            if per_resource {
+                hotspot::load_rules_of_resource(&r, vec![x.clone(), hs_lax("lax")]).map_err(|e| e.to_string())?;
+            } else {
+                hotspot::load_rules(vec![x.clone(), hs_lax("lax"), hs_unrelated("u", 3)]);
+            }
+        }
+        AnySubject::Cb(x) => {
+            if per_resource {
+                cb::load_rules_of_resource(&r, vec![x.clone(), cb_lax("lax")]).map_err(|e| e.to_string())?;
+            } else {
+                cb::load_rules(vec![x.clone(), cb_lax("lax"), cb_unrelated("u", 3.0)]);
+            }
+        }
+    }
+    Ok(())
+}
+
 #[derive(PartialEq)]
 enum Kind {
     Flow,
@@ -212,6 +350,7 @@ fn do_reload(f: Family, v: Variant) -> Result<(), String> {
                 Variant::LoadResSame => {
                     $m::load_rules_of_resource(&R.to_string(), vec![subj, lax]).map_err(|e| format!("load-for-resource-failed: {}", e))?;
                 }
+                Variant::FreshEquivalent => unreachable!("handled by run_history_loaded"),
             }
         }};
     }
@@ -256,10 +395,23 @@ impl cb::StateChangeListener for Rec {
 /// Run the family's history, optionally with a reload before step `at`. Returns the observation
 /// of every step, and (kept objects, total objects) of the identity check.
 pub fn run_history(f: Family, reload: Option<(Variant, usize)>) -> Result<(Vec<String>, u64), String> {
+    run_history_loaded(f, reload, None)
+}
+/// `loads`: instead of the family's initial load, load the subject with the first alternative
+/// (None = base rule) and then, if given, re-load it with the second, before any traffic
+pub fn run_history_loaded(f: Family, reload: Option<(Variant, usize)>, loads: Option<(Option<usize>, Option<(Option<usize>, bool)>)>) -> Result<(Vec<String>, u64), String> {
     reset_world(T0_MS + 250);
     let log: Log = Arc::new(Mutex::new(vec![]));
     cb::register_state_change_listeners(vec![Arc::new(Rec(log.clone()))]);
-    initial_load(f);
+    match loads {
+        None => initial_load(f),
+        Some((first, then)) => {
+            load_with(&subject_alt(f, first), false)?;
+            if let Some((second, per_resource)) = then {
+                load_with(&subject_alt(f, second), per_resource)?;
+            }
+        }
+    }
     let mut held: Vec<EntryStrongPtr> = vec![];
     let mut obs = vec![];
     let mut builds = 0u64;
@@ -415,7 +567,14 @@ pub fn configs(thorough: bool) -> Vec<Cfg> {
                 if !thorough && (at + k) % 2 == 1 && at != n / 2 {
                     continue;
                 }
-                v.push(Cfg { family: f, variant: *var, at });
+                v.push(Cfg { family: f, variant: *var, at, alt: 0, per_resource: false, reverse: false });
+            }
+        }
+        for alt in 0..alts(f).len() {
+            for per_resource in [false, true] {
+                for reverse in [false, true] {
+                    v.push(Cfg { family: f, variant: Variant::FreshEquivalent, at: 0, alt, per_resource, reverse });
+                }
             }
         }
     }
@@ -423,6 +582,27 @@ pub fn configs(thorough: bool) -> Vec<Cfg> {
 }
 
 fn run_cfg(c: &Cfg) -> Result<(u64, bool), String> {
+    if c.variant == Variant::FreshEquivalent {
+        let (first, last) = if c.reverse { (Some(c.alt), None) } else { (None, Some(c.alt)) };
+        let (fresh, b1) = run_history_loaded(c.family, None, Some((last, None)))?;
+        let (two_step, b2) = run_history_loaded(c.family, None, Some((first, Some((last, c.per_resource)))))?;
+        for i in 0..fresh.len() {
+            if fresh[i] != two_step[i] {
+                return Err(format!(
+                    "changed-not-applied: {:?} history, parameter {} {} and re-loaded {} before any traffic: step {} observes {:?}; with the final rule loaded from the start it is {:?}",
+                    c.family,
+                    alts(c.family)[c.alt],
+                    if c.reverse { "changed at first" } else { "changed by the re-load" },
+                    if c.per_resource { "for the resource" } else { "for all resources" },
+                    i,
+                    two_step[i],
+                    fresh[i]
+                ));
+            }
+        }
+        let distinct: std::collections::BTreeSet<&str> = fresh.iter().map(|s| s.split(' ').next().unwrap()).collect();
+        return Ok((b1 + b2, distinct.len() >= 2));
+    }
     let (base, b1) = run_history(c.family, None)?;
     let at = c.at.min(base.len());
     let (got, b2) = run_history(c.family, Some((c.variant, at)))?;
